@@ -69,6 +69,8 @@ def expression(form, refs, labels):
         return "*".join(r) + "*1.25"
     if form == "mix":
         return f"sqrt({r[0]})" + "".join(f" + {x} * 2" for x in r[1:])
+    if form == "idx":  # fails (IndexError inside asteval -> non numeric -> ValueError) where the first referenced value is >= 5
+        return f"(0.5, 1.5, 2.5, 3.5, 4.5)[int({r[0]})]" + "".join(f" + {x}" for x in r[1:])
     raise AssertionError(form)
 
 
@@ -83,6 +85,11 @@ def ref_eval(form, vals):
         for v in vals[1:]:
             acc = acc * v
         return acc * 1.25
+    if form == "idx":
+        acc = (0.5, 1.5, 2.5, 3.5, 4.5)[int(vals[0])]
+        for v in vals[1:]:
+            acc = acc + v
+        return acc
     acc = math.sqrt(vals[0])
     for v in vals[1:]:
         acc = acc + v * 2
@@ -238,7 +245,7 @@ def free_leaves(case):
 
 
 # --------------------------------------------------------------------------- history replay (E2 transition)
-EVENTS = [["set", 0], ["set", 1], ["set", 2], ["update"], ["copy"], ["get", False], ["get", True]]
+EVENTS = [["set", 0], ["set", 1], ["set", 2], ["update"], ["copy"], ["get", False], ["get", True], ["hist"], ["set_bad"]]
 
 
 def replay_history(case, history):
@@ -246,19 +253,52 @@ def replay_history(case, history):
     graph = {i: tuple(case["graph"][i]) for i in range(n)}
     labels = labels_for(style, n)
     nn = nonneg_leaf(graph, n, case.get("variant", "plain"))
+    from glotaran.parameter import ParameterHistory
+
     params = build_parameters(case, "programmatic")
     leaf = {i: leaf_initial(i) for i in free_leaves(case)}
     free = free_leaves(case)
     vs = invariant(params, case, leaf, "construction") if not history else []
+    recorded = ParameterHistory()
+    recorded.append(params)  # the state every "hist" event restores
+    leaf0 = dict(leaf)
+    poisoned = False  # an update failed: the intermediate state is unspecified until the next complete update
+
+    def ref_ok(lf):
+        try:
+            reference_values(graph, n, case["form"], lf)
+            return True
+        except IndexError:
+            return False
+
+    def updating(op, new_leaf, what):
+        """run an updating operation; returns the leaf values that now apply"""
+        nonlocal poisoned
+        expect_ok = ref_ok(new_leaf)
+        try:
+            op()
+            raised = False
+        except ValueError:
+            raised = True
+        if raised == expect_ok:
+            vs.append(V("update-failure-differs-from-reference", what=what, raised=raised, reference_evaluates=expect_ok))
+        poisoned = raised
+        return new_leaf
+
     for step, ev in enumerate(history):
         last = step == len(history) - 1
-        if ev[0] == "set":
-            vec = set_vector(ev[1], free)
-            params.set_from_label_and_value_arrays([labels[i] for i in free], np.asarray(vec))
+        if ev[0] in ("set", "set_bad"):
+            vec = set_vector(ev[1], free) if ev[0] == "set" else [7.5 if i != nn else float(np.log(7.5)) for i in free]
+            new_leaf = dict(leaf)
             for i, v in zip(free, vec):
-                leaf[i] = float(np.exp(v)) if i == nn else v
+                new_leaf[i] = float(np.exp(v)) if i == nn else v
+            leaf = updating(lambda: params.set_from_label_and_value_arrays([labels[i] for i in free], np.asarray(vec)), new_leaf, ev)
         elif ev[0] == "update":
-            params.update_parameter_expression()
+            leaf = updating(params.update_parameter_expression, leaf, ev)
+        elif ev[0] == "hist":
+            leaf = updating(lambda: params.set_from_history(recorded, 0), dict(leaf0), ev)
+        elif poisoned:
+            continue  # copy / export of a set whose last update failed is not judged
         elif ev[0] == "copy":
             orig = params
             before = state_of(orig)
@@ -274,6 +314,15 @@ def replay_history(case, history):
                 cp = orig.copy()
                 if any(a is b for a, b in zip(cp.all(), orig.all())):
                     vs.append(V("copy-shares-parameter-objects"))
+                # ... and the original keeps working while copies of it exist
+                vec2 = set_vector(2, free)
+                orig.set_from_label_and_value_arrays([labels[i] for i in free], np.asarray(vec2))
+                leaf_o = dict(leaf)
+                for i, v in zip(free, vec2):
+                    leaf_o[i] = float(np.exp(v)) if i == nn else v
+                vs += [dict(v, signature=v["signature"] + "/original-after-copy") for v in invariant(orig, case, leaf_o, "original updated after copy()")]
+                cp = orig.copy()
+                leaf = leaf_o
             params = cp
         elif ev[0] == "get":
             lab, val, lo, hi = params.get_label_value_and_bounds_arrays(exclude_non_vary=ev[1])
@@ -291,14 +340,14 @@ def replay_history(case, history):
                         if not same(float(v), float(w)):
                             vs.append(V("exported-value-differs-from-reference", label=L, got=float(v), want=w))
                             break
-        if last:
+        if last and not poisoned:
             vs += invariant(params, case, leaf, f"after {ev}")
     # The digest must cover hidden state too, otherwise histories are merged that have different futures:
     # (a) all parameter fields, (b) whether the object was produced by copy() (a copy may share state with its
     # source that no field shows), (c) which object the expression interpreter is bound to.
     ev = getattr(params, "_evaluator", None)
     bound = getattr(ev, "symtable", {}).get("parameters") is params if ev is not None else None
-    dg = core.digest([state_of(params), any(e[0] == "copy" for e in history), bound])
+    dg = core.digest([state_of(params), any(e[0] == "copy" for e in history), bound, poisoned])
     return dg, vs, {"outcome": [float(params.get(l).value) for l in labels]}
 
 
@@ -428,7 +477,7 @@ def run(run: core.Run):
     for n in range(1, hist_n + 1):
         for g in all_dags(range(n)):
             gk = graph_key(g, n)
-            forms = ["sum", "prod", "mix"] if n <= 3 or not quick else ["sum", "mix"]
+            forms = ["sum", "prod", "mix", "idx"] if n <= 3 or not quick else ["sum", "idx"]
             for form in forms:
                 for style in ("flat", "nested"):
                     if n == 4 and style == "nested" and form != "sum":
